@@ -222,7 +222,7 @@ def outline(cls_node, fn, marker, name, order_hint=(), extend_forward=True, allo
     return helper
 
 
-def outline_block(cls_node, fn, marker, name, order_hint=()):
+def outline_block(cls_node, fn, marker, name, order_hint=(), single=False):
     """move the outermost block (branch of an `if`, `else` of a loop, handler body) of method `fn` that holds `marker` and contains no
     return / yield / break / continue into a new method; locals read become parameters; locals written and read outside are returned
     unless every path through the block raises (then nothing after it sees them)"""
@@ -240,12 +240,30 @@ def outline_block(cls_node, fn, marker, name, order_hint=()):
     locals_.discard('self')
     nested = [n for n in ast.walk(fn) if n is not fn and isinstance(n, (ast.FunctionDef, ast.Lambda))]
     captured = set(_names(nested, ast.Load))
-    forbidden = (ast.Return, ast.Yield, ast.YieldFrom, ast.Break, ast.Continue, ast.FunctionDef, ast.AsyncFunctionDef, ast.ClassDef, ast.Lambda,
+    forbidden = (ast.Return, ast.Yield, ast.YieldFrom, ast.FunctionDef, ast.AsyncFunctionDef, ast.ClassDef, ast.Lambda,
                  ast.Global, ast.Nonlocal, ast.Await, ast.NamedExpr, ast.Delete)
     from .normalise import _terminates
-    for stmts, idx in chain[1:]:
-        block = stmts
-        if any(isinstance(n, forbidden) for s in block for n in ast.walk(s)):
+
+    def escapes(block):
+        """non-local control flow leaving the block (a break / continue of a loop that lies wholly inside it stays inside)"""
+        inner = {id(x) for s in block for l in ast.walk(s) if isinstance(l, (ast.For, ast.While)) for b in l.body + l.orelse for x in ast.walk(b)}
+        for s in block:
+            for n in ast.walk(s):
+                if isinstance(n, (ast.Break, ast.Continue)):
+                    if not single or id(n) not in inner:
+                        return True
+                elif isinstance(n, forbidden):
+                    return True
+        return False
+    cands = []
+    for lvl, (stmts, idx) in enumerate(chain):
+        if single:
+            cands.append((stmts, idx, idx + 1))        # the one statement on the way to the marker
+        if lvl > 0:
+            cands.append((stmts, 0, len(stmts)))       # the whole block
+    for stmts, lo, hi in cands:
+        block = stmts[lo:hi]
+        if escapes(block):
             continue
         rids = {id(x) for s in block for x in ast.walk(s)}
         writes = _names(block, ast.Store) + [n.name for s in block for n in ast.walk(s) if isinstance(n, ast.ExceptHandler) and n.name]
@@ -283,7 +301,7 @@ def outline_block(cls_node, fn, marker, name, order_hint=()):
         helper = ast.FunctionDef(name=name, args=ast.arguments(posonlyargs=[], args=[ast.arg(arg='self')] + [ast.arg(arg=x) for x in ins],
                                                                kwonlyargs=[], kw_defaults=[], defaults=[]),
                                  body=body, decorator_list=[], returns=None, type_comment=None, lineno=block[0].lineno, col_offset=fn.col_offset)
-        stmts[:] = [ast.copy_location(repl, block[0])]
+        stmts[lo:hi] = [ast.copy_location(repl, block[0])]
         cls_node.body.append(helper)
         ast.fix_missing_locations(helper)
         return helper
@@ -313,6 +331,9 @@ ROLES = [
     ('playback.tape_recorder', 'TapeRecorder', '_should_sample_active_recording', _is_draw, '_sampling_decision__outlined', 'pure'),
     ('playback.tape_cassettes.s3.s3_tape_cassette', 'S3TapeCassette', '_should_sample', _is_draw, '_size_sampling_decision__outlined',
      ('pure', ('sampling_calculator', 'extract_recording_category'))),
+    ('playback.studio.equalizer', 'Equalizer', '_play_and_compare_recording_within_worker',
+     lambda n: isinstance(n, ast.Call) and isinstance(n.func, ast.Attribute) and n.func.attr == 'put' and isinstance(n.func.value, ast.Attribute) and
+     isinstance(n.func.value.value, ast.Name) and n.func.value.value.id == 'self' and 'task' in n.func.value.attr, '_dispatch__outlined', 'stmt'),
     ('playback.studio.equalizer', 'Equalizer', '_handle_compare_execution_timeout', _is_kill_call, '_timeout_path__outlined', 'block'),
     ('playback.interception.files.file_interception', 'FileInterception', '_serialize_file',
      lambda n: isinstance(n, ast.Call) and isinstance(n.func, ast.Attribute) and n.func.attr == 'b64encode', '_serialize__outlined', 'pure'),
@@ -414,7 +435,7 @@ def outline_roles(trees, signatures):
             if kind == 'pure':
                 h = outline(c, m, marker, name, order_hint=[p for p in hint if p != 'self'], allowed=allowed)
             else:
-                h = outline_block(c, m, marker, name, order_hint=[p for p in hint if p != 'self'])
+                h = outline_block(c, m, marker, name, order_hint=[p for p in hint if p != 'self'], single=(kind == 'stmt'))
             if h is not None:
                 done.append((name, m.name))
     return done
